@@ -26,16 +26,18 @@ def liftMon {μ : Type} (m : ObsMonitor Obs μ) : ObsMonitor CObs μ where
 
 structure C10St where
   resVals : List (Nat × Nat) := []        -- (value, error) of every resolver return
+  zeroEntries : List Nat := []            -- entries that returned the zero value of `T` with a nil error
   relSeen : List Nat := []                -- resolver entries whose release function has run
   inval : List Nat := []                  -- resolver entries whose released() has been called
   ctxCalls : List Nat := []               -- SetContext / ClearContext calls in flight
   anyCtx : Bool := false                  -- a SetContext / ClearContext has been invoked at all
   ops : List (Nat × COp) := []
   cancelled : List Nat := []              -- consumer calls whose caller context was cancelled
-  accCur : List (Nat × Nat × Nat × Bool) := []    -- (call, m, value, invalidated before the callback returned)
+  /-- (call, m, entry of the value if known, invalidated before the callback returned) -/
+  accCur : List (Nat × Nat × Option Nat × Bool) := []
   accLast : List (Nat × Nat × Bool × Nat) := []   -- (call, m, invalidated before return, callback result)
   accCount : List (Nat × Nat) := []       -- (call, number of callback entries)
-  held : List (Nat × Nat) := []           -- (call, value) returned together with a reference
+  held : List (Nat × Option Nat) := []    -- (call, entry of the value) returned together with a reference
   relInv : List Nat := []                 -- references whose Release has been invoked
   fired : List Nat := []                  -- ResolveWithReleased calls whose released callback ran
 deriving Repr
@@ -44,11 +46,16 @@ def opOf (m : C10St) (a : Nat) : Option COp := (m.ops.find? (·.1 == a)).map (·
 
 def countOf (l : List (Nat × Nat)) (a : Nat) : Nat := ((l.find? (·.1 == a)).map (·.2)).getD 0
 
-/-- entry whose release function belongs to value `v` -/
-def entryOf (v : Nat) : Option Nat := if v = 0 then none else some (v - 1)
+/-- the resolver entry a successfully resolved value `v` came from: entry `v-1` for a non-zero value;
+for the zero value of `T` the entry is known when exactly one entry has returned it so far -/
+def entryOf (m : C10St) (v : Nat) : Option Nat :=
+  if v ≠ 0 then some (v - 1)
+  else match m.zeroEntries with
+    | [k] => some k
+    | _ => none
 
-def isInvalidated (m : C10St) (v : Nat) : Bool :=
-  match entryOf v with
+def entInvalidated (m : C10St) (ent : Option Nat) : Bool :=
+  match ent with
   | some k => m.relSeen.contains k || m.inval.contains k
   | none => false
 
@@ -56,24 +63,26 @@ def monC10 : ObsMonitor CObs C10St where
   init := {}
   step := fun m o =>
     match o with
-    | .base (.cboutResolver _ v _ e) => some { m with resVals := (v, e) :: m.resVals }
+    | .base (.cboutResolver k v _ e) =>
+      some { m with resVals := (v, e) :: m.resVals
+                    zeroEntries := if v = 0 ∧ e = 0 then k :: m.zeroEntries else m.zeroEntries }
     | .base (.envReleased k) => some { m with inval := k :: m.inval }
     | .base (.invSetCtx a _ _) => some { m with ctxCalls := a :: m.ctxCalls, anyCtx := true }
     | .base (.retSetCtx a _) => some { m with ctxCalls := m.ctxCalls.erase a }
     | .base (.invRelease _ r) => some { m with relInv := r :: m.relInv }
     | .base (.cbinRel k _) =>
       -- wait_keeps_alive: not while a reference returned with that value is held, unless invalidated
-      if m.held.any (fun p => p.2 = k + 1 && !m.relInv.contains p.1) && !m.inval.contains k && m.ctxCalls.isEmpty
+      if m.held.any (fun p => p.2 == some k && !m.relInv.contains p.1) && !m.inval.contains k && m.ctxCalls.isEmpty
       then none
       else some { m with relSeen := k :: m.relSeen
-                         accCur := m.accCur.map fun p => if p.2.2.1 = k + 1 then (p.1, p.2.1, p.2.2.1, true) else p }
+                         accCur := m.accCur.map fun p => if p.2.2.1 == some k then (p.1, p.2.1, p.2.2.1, true) else p }
     | .inv a op => some { m with ops := (a, op) :: m.ops }
     | .cancelCall a => some { m with cancelled := a :: m.cancelled }
     | .cbin a i v =>
       -- access_value_current (observable part): a resolved value without error, entries numbered, one at a time
       if opOf m a == some .access && m.resVals.contains (v, 0) && i == countOf m.accCount a &&
          !m.accCur.any (·.1 == a) then
-        some { m with accCur := (a, i, v, false) :: m.accCur
+        some { m with accCur := (a, i, entryOf m v, false) :: m.accCur
                       accCount := (a, i + 1) :: m.accCount.filter (·.1 != a) }
       else none
     | .cbout a i r =>
@@ -83,9 +92,9 @@ def monC10 : ObsMonitor CObs C10St where
       | none => none
     | .probeCtx a i c =>
       -- access_cancel: by the next quiescence the callback context of an invalidated value (or of a
-      -- cancelled caller) is cancelled
+      -- cancelled caller) is cancelled — zero values included
       match m.accCur.find? (fun p => p.1 == a && p.2.1 == i) with
-      | some p => if (isInvalidated m p.2.2.1 || m.cancelled.contains a) && !c then none else some m
+      | some p => if (entInvalidated m p.2.2.1 || m.cancelled.contains a) && !c then none else some m
       | none => none
     | .ret a v e =>
       match opOf m a with
@@ -104,11 +113,11 @@ def monC10 : ObsMonitor CObs C10St where
         else if e ≠ 0 then some m
         else
           -- a value that is already released when it is returned must have been invalidated
-          match entryOf v with
+          match entryOf m v with
           | some k =>
             if m.relSeen.contains k && !m.inval.contains k && !m.anyCtx then none
-            else some { m with held := (a, v) :: m.held }
-          | none => some { m with held := (a, v) :: m.held }
+            else some { m with held := (a, some k) :: m.held }
+          | none => some { m with held := (a, none) :: m.held }
       | none => none
     | .cbinReleased a =>
       -- released_once: at most once, only for a call that passed a callback, only after an invalidation
@@ -116,12 +125,11 @@ def monC10 : ObsMonitor CObs C10St where
         some { m with fired := a :: m.fired }
       else none
     | .base (.quiesce _) =>
-      -- released_once (exactly when): a held value that has been released has fired the callback
+      -- released_once (exactly when): a held value that has been invalidated (its release function ran,
+      -- or its released() was called) has fired the callback by the next quiescence point
       if m.held.all fun p =>
-          !(opOf m p.1 == some (.rwr true) && !m.relInv.contains p.1 && isInvalidated m p.2 &&
-            (match entryOf p.2 with
-             | some k => m.relSeen.contains k
-             | none => false)) || m.fired.contains p.1
+          !(opOf m p.1 == some (.rwr true) && !m.relInv.contains p.1 && entInvalidated m p.2) ||
+          m.fired.contains p.1
       then some m else none
     | _ => some m
 
